@@ -1704,8 +1704,11 @@ package ucfg
 //@ ensures [naming_with !unproved] (result == nil) == recValidW(val, validators)
 
 //@ func reifyDoArray :: opts, to, elemT, start, val, arr -> r, err
-//@ props C04 C07
+//@ props C04 C07 C08
 //@ sweep
+//@ requires opts.opts != nil
+//@ at-call reifyMergeValue requires opts.opts != nil && opts.opts.activeFields != nil && forall k string :: !has(opts.opts.activeFields.fields, k)
+//@ ensures [scope @C08] opts.opts.activeFields == old(opts.opts.activeFields)
 //@ requires rvKind(to) == 17 || rvKind(to) == 23
 //@ requires rvKind(to) == 17 ==> rvCanSet(to)
 //@ requires 0 <= start && start + len(arr) < 9223372036854775807
@@ -2214,3 +2217,24 @@ package ucfg
 //@ sweep
 //@ rvwrites nothing
 //@ ensures [settable] rvCanSet(r) && rvKind(r) == rvKind(v) && rvType(r) == rvType(v) && fresh(rvRootOf(r))
+
+//@ func reifyDoArray$1
+//@ props C08
+//@ requires deref(opts).opts != nil
+//@ modifies deref(opts).opts.activeFields
+//@ ensures [restore] deref(opts).opts.activeFields == deref(parentFields)
+
+// C08: the pieces of one string are evaluated in scope levels of their own (fresh, empty, chained to the level of the
+// string), so that the same variable may be used several times in one string; the level is restored on return
+//@ func (*splice).eval :: s, cfg, opts -> r, err
+//@ props C08 C07
+//@ sweep
+//@ requires s != nil && opts != nil
+//@ at-call iface:varEvaler.eval requires opts != nil && opts.activeFields != nil && forall k string :: !has(opts.activeFields.fields, k)
+//@ ensures [scope] opts.activeFields == old(opts.activeFields)
+
+//@ func (*splice).eval$1
+//@ props C08
+//@ requires deref(opts) != nil
+//@ modifies deref(opts).activeFields
+//@ ensures [restore] deref(opts).activeFields == deref(parentFields)
